@@ -191,6 +191,21 @@ def conds_at(ctx: Ctx, f: Func, node: ast.AST, _cache: dict | None = None) -> di
 
     st = stmt_of(node)
     items = list(_enclosing_conds(ctx, f, node))
+    # short-circuit operators: in `a and b` the operand b is evaluated only where a is true (in `a or b`: false)
+    from ..model import parent as _parent
+
+    child_, cur_ = node, _parent(node)
+    while cur_ is not None and not isinstance(cur_, (ast.stmt, ast.FunctionDef, ast.Lambda)):
+        if isinstance(cur_, ast.BoolOp):
+            k_ = next((i_ for i_, v_ in enumerate(cur_.values) if v_ is child_), None)
+            if k_:
+                for v_ in cur_.values[:k_]:
+                    try:
+                        a_, p_ = norm_cond(ctx.X.value_at(f, v_))
+                    except Exception:  # noqa: BLE001
+                        continue
+                    items.append((a_, p_ if isinstance(cur_.op, ast.And) else not p_))
+        child_, cur_ = cur_, _parent(cur_)
     if st is not None:
         if _cache is not None and id(st) in _cache:
             items += _cache[id(st)]
